@@ -177,3 +177,16 @@ Theorem C01_source_step_loop_is_model : forall (rg : RG) (rp : RP) steps s,
   gen_run_pipeline_steps (run_step rg rp) steps s = run_steps rg rp (steps_or_nil steps) s.
 Proof. exact gen_run_pipeline_steps_is_model. Qed.
 Print Assumptions C01_source_step_loop_is_model.
+
+(** the entry of a pipeline READ FROM THE SOURCE ([Pipeline._run_pipeline], with the default group
+    names read from [Config.__init__]): groups default to [steps] when none are given, the handlers
+    to on_success / on_failure only when no group and no handler at all was given; the runner is
+    installed before the context parser runs; a parser error routes to the failure group, whose own
+    StopStepGroup / completion re-raises the parser's error; StopPipeline ends this pipeline only.
+    It is the model's [run_pipeline_inner] for every parser behaviour, argument choice and state. *)
+Theorem C01_source_pipeline_entry_is_model : forall (rg : RG) (rfail : string -> st -> R)
+    parser parse groups success failure s,
+  gen_run_pipeline groups success failure (prepare_context parser parse) rg (rfail_prim rfail) s
+  = run_pipeline_inner rg rfail parser parse groups success failure s.
+Proof. exact gen_run_pipeline_is_model. Qed.
+Print Assumptions C01_source_pipeline_entry_is_model.
